@@ -110,6 +110,12 @@ fn dump(title: &str, r: &Runner) {
 	println!("==== {} : history ====\n{}", title, r.history());
 }
 
+/// development aid only (never set by `./check`): C11_DEV_TOLERATE=claimdrop,stalepkg turns the two findings
+/// reported for this property into labels so that the rest of the domain can be explored
+fn dev_tolerate(what: &str) -> bool {
+	std::env::var("C11_DEV_TOLERATE").map(|v| v.split(',').any(|t| t == what)).unwrap_or(false)
+}
+
 type Panic = Box<dyn std::any::Any + Send>;
 
 fn guarded<T>(f: impl FnOnce() -> T) -> Result<T, Panic> {
@@ -128,6 +134,11 @@ fn on_panic(p: Panic, ctx: &mut Ctx, title: &str, r: &Runner, debug: bool) -> Ca
 	let other_node = !observed_node_active();
 	if debug {
 		dump(title, r);
+	}
+	let stalepkg = lp.as_ref().map(|(m, l)| l.contains("onchaintx.rs") && m.contains("self.pending_claim_requests.get(&claim_id).is_none()")).unwrap_or(false);
+	if stalepkg && !other_node && dev_tolerate("stalepkg") {
+		ctx.label("dev-tolerated:duplicate-claim-id-assert");
+		return Ok(());
 	}
 	if !locktime && !other_node && r.buried_tx_unburied() && std::env::var("VERIF_DEBUG_FOREIGN").is_err() {
 		// A channel transaction that had ANTI_REORG_DELAY confirmations on the chain the node was told was
@@ -227,7 +238,7 @@ fn oracle(c: &Case, ctx: &mut Ctx) -> CaseResult {
 						if missing.iter().all(|m| out0.own_commitments.iter().any(|c| m.starts_with(c.as_str()))) {
 							view.push_str(":output-of-own-commitment");
 						}
-						if std::env::var("C11_DEV_TOLERATE").is_ok() {
+						if dev_tolerate("claimdrop") {
 							outcome_labels.push(format!("dev-tolerated:{}", view));
 							break;
 						}
